@@ -108,6 +108,13 @@ pub fn gen_c04(asm: &Asm, mach: &mut Mach, rng: &mut Rng, sh: &mut Shards, thoro
                         Ins::Xchg { w, a: m.clone(), b: rand_reg(rng, w) },
                         Ins::Xchg { w, a: rand_reg(rng, w), b: m.clone() },
                         Ins::Shift { op: "rol", mn: "rol", w, dst: m.clone(), cnt: Cnt::Imm(1) },
+                        // (each of these is a production of its own in the interpreter's grammar, with its own address arithmetic)
+                        { let op = *rng.pick(&["sal", "shr", "sar", "rol", "ror", "rcl", "rcr"]); Ins::Shift { op, mn: op, w, dst: m.clone(), cnt: Cnt::Cl } },
+                        { let op = *rng.pick(&["sal", "shr", "sar", "rol", "ror", "rcl", "rcr"]); Ins::Shift { op, mn: op, w, dst: m.clone(), cnt: Cnt::Imm(2 + rng.below(6) as u32) } },
+                        Ins::UnArith { op: *rng.pick(&["mul", "imul", "div", "idiv"]), w, dst: m.clone() },
+                        Ins::Logic { op: "test", w, dst: m.clone(), src: rand_reg(rng, w) },
+                        Ins::BinArith { op: *rng.pick(&["add", "adc", "sub", "sbb"]), w, dst: rand_reg(rng, w), src: m.clone() },
+                        Ins::BinArith { op: *rng.pick(&["add", "cmp"]), w, dst: m.clone(), src: rand_imm(rng, w, true) },
                     ];
                     for ins in list {
                         let regs = stress_regs(rng);
